@@ -45,6 +45,9 @@ type Prop struct {
 	Design    string
 	Run       func(c *Ctx)
 	Modules   []string // "main", "wasm"
+	// Deps: properties this one rests on — a violation of any of their rules is also a violation of this
+	// property (chosen so that the implication really holds). Their rules are re-run as part of this property's check.
+	Deps []string
 }
 
 var Registry = map[string]*Prop{}
@@ -66,6 +69,9 @@ type Ctx struct {
 	loadErr  error
 	RepoDir  string
 	Explain  []string
+	// EvidenceDir: where Finish writes (default <verif>/evidence); set only when the checker itself is being
+	// tested on a patched in-memory variant (check --patch), so the real evidence is not overwritten.
+	EvidenceDir string
 }
 
 func NewCtx(p *Prop, tier string) *Ctx {
@@ -370,8 +376,12 @@ func (c *Ctx) Finish(verifDir string, started time.Time) int {
 	id := c.Prop.ID
 	viol := 0
 	disc := 0
-	os.MkdirAll(filepath.Join(verifDir, "evidence", "replays"), 0o755)
-	old, _ := filepath.Glob(filepath.Join(verifDir, "evidence", "replays", id+"-*.json"))
+	evd := filepath.Join(verifDir, "evidence")
+	if c.EvidenceDir != "" {
+		evd = c.EvidenceDir
+	}
+	os.MkdirAll(filepath.Join(evd, "replays"), 0o755)
+	old, _ := filepath.Glob(filepath.Join(evd, "replays", id+"-*.json"))
 	for _, f := range old {
 		os.Remove(f)
 	}
@@ -391,7 +401,7 @@ func (c *Ctx) Finish(verifDir string, started time.Time) int {
 				continue
 			}
 			viol++
-			rp := filepath.Join(verifDir, "evidence", "replays", fmt.Sprintf("%s-%d.json", id, viol))
+			rp := filepath.Join(evd, "replays", fmt.Sprintf("%s-%d.json", id, viol))
 			b, _ := json.MarshalIndent(map[string]any{"property": id, "obligation": o, "explain": "static rule " + o.Rule + " " + string(o.Status) + " on construct " + o.Construct}, "", " ")
 			os.WriteFile(rp, b, 0o644)
 			fmt.Printf("%s: %s %s at %s: %s\n", strings.ToUpper(string(o.Status)), o.Rule, o.Construct, o.Where, o.Detail)
@@ -453,7 +463,7 @@ func (c *Ctx) Finish(verifDir string, started time.Time) int {
 		"wall_s":      time.Since(started).Seconds(), "violations": viol,
 	}
 	b, _ := json.MarshalIndent(ev, "", " ")
-	os.WriteFile(filepath.Join(verifDir, "evidence", id+".json"), b, 0o644)
+	os.WriteFile(filepath.Join(evd, id+".json"), b, 0o644)
 	fmt.Printf("%s: %d obligations, %d discharged, %d violations, %.1fs\n", id, len(c.Obls), disc, viol, time.Since(started).Seconds())
 	if viol > 0 {
 		return 1
